@@ -11,6 +11,7 @@
      mbx      the mailbox lock file /run/ebpf/<if> exists
      fm       the FMMU bitmap file /run/ebpf/<if>.fmmu: [ex, len, bits] (bits = set bit numbers)
      holder   who holds the lockf lock on the bitmap file, or None
+     mutex    who holds the flock on /run/lock/ebpf.<if>.mutex (ParallelEtherCat.interface_lock)
    Per participant `loc[p]`:
      ph       idle / starting / running / stopping / done / failed / crashed; "running" is the
               span between the end of the start sequence of ParallelEtherCat.run (the context is
@@ -27,7 +28,16 @@
        reports the interleavings that break the property;
      - on the states observed from the real code under those interleavings (ParallelTrace).
 
-   Each step is one gated call of the real code; GateOf[pc] is the name of the call the
+   Protocol switches (the repaired protocol is Mutex = LockedInit = TRUE; the earlier ones stay
+   available as adversaries - TLC finds in them the interleavings a regression would reopen):
+     Mutex       the start block and the stop block of run() are each executed under
+                 interface_lock(): open + flock before, close after (also when an exception leaves)
+     LockedInit  FMMULock: the creator of the bitmap allocates under the lockf lock like everybody
+                 else; FALSE: it writes b'\2' + 63 zero bytes after open(O_EXCL) without the lock
+     Bare        the participants only construct FMMULock(path) and later remove() it (the class
+                 used on its own); only WindowsDistinct is meaningful then
+
+   Each step is one gated call of the real code; Gate(pc) is the name of the call the
    participant is parked at.  Eff(p, c) is the effect of letting p run to its next gate; c is
    the value random.randrange hands out in that span (a new ethertype after FileExistsError, the
    FMMU window number), 0 where none is drawn.                                              *)
@@ -37,7 +47,8 @@ CONSTANTS Procs,        \* participants (strings)
           REth,         \* ethertypes randrange(0x3000, 0x6000) may return
           Addrs,        \* window numbers randrange(1, 512) may return
           MaxCrash,     \* participants that may crash (kill -9) between two operations
-          MaxPre        \* preemption bound; -1: unbounded
+          MaxPre,       \* preemption bound; -1: unbounded
+          Mutex, LockedInit, Bare      \* protocol switches, see above
 
 Eth0 == 34980           \* 0x88A4, the class default every participant tries first
 None == "none"
@@ -48,7 +59,10 @@ NoFm == [ex |-> FALSE, len |-> 0, bits |-> {}]
 VARIABLES sh, loc, crashes, pre, last
 pvars == <<sh, loc, crashes, pre, last>>
 
-GateOf == [mkdtemp |-> "mkdtemp", t_xopen |-> "xopen", rename |-> "rename",
+GateOf == [m_open |-> "open:mutex", m_lock |-> "lock:mutex", m_close |-> "close:mutex",
+           s_mlock |-> "lock:mutex", s_rmown |-> "remove:own", s_mclose |-> "close:mutex",
+           mx_fail |-> "close:mutex",
+           mkdtemp |-> "mkdtemp", t_xopen |-> "xopen", rename |-> "rename",
            create_map |-> "create_map", i_rmpin |-> "remove:pin", attach |-> "attach",
            pinit |-> "pin", i_rmtree |-> "rmtree_lock",
            rmtree |-> "rmtree", j_xopen |-> "xopen", obj_get1 |-> "obj_get",
@@ -63,15 +77,18 @@ GateOf == [mkdtemp |-> "mkdtemp", t_xopen |-> "xopen", rename |-> "rename",
            fr_unlock |-> "unlock:fmmu", fr_unlockx |-> "unlock:fmmu",
            done |-> "-", failed |-> "-", crashed |-> "-"]
 Final == {"done", "failed", "crashed"}
+(* the first call of the stop sequence depends on the protocol *)
+Gate(pcv) == IF pcv # "running" THEN GateOf[pcv]
+             ELSE IF Bare THEN "lock:fmmu" ELSE IF Mutex THEN "open:mutex" ELSE "remove:own"
 
-Loc0 == [pc |-> "mkdtemp", ph |-> "idle", inst |-> FALSE, eth |-> Eth0, win |-> 0, tab |-> None,
+Loc0 == [pc |-> IF Bare THEN "fm_openx" ELSE IF Mutex THEN "m_open" ELSE "mkdtemp", ph |-> "idle", inst |-> FALSE, eth |-> Eth0, win |-> 0, tab |-> None,
          own |-> 0, amap |-> {}, addr |-> 0]
 Sh0 == [lockdir |-> NoDir, tmp |-> [p \in Procs |-> 0], pin |-> None, att |-> NoAtt,
-        mbx |-> FALSE, fm |-> NoFm, holder |-> None]
+        mbx |-> FALSE, fm |-> NoFm, holder |-> None, mutex |-> None]
 
 ByteBits(k) == {8 * k + i : i \in 0 .. 7}
 Max2(a, b) == IF a > b THEN a ELSE b
-Fail(L) == [L EXCEPT !.pc = "failed", !.ph = "failed", !.inst = FALSE]
+Failed(L) == [L EXCEPT !.pc = "failed", !.ph = "failed", !.inst = FALSE]
 
 (* the values randrange may hand out in the span after p's current gate *)
 ChoiceSet(p) ==
@@ -81,12 +98,30 @@ ChoiceSet(p) ==
     ELSE IF L.pc = "fm_trunc" THEN Addrs
     ELSE {0}
 
-Eff(p, c) ==
+Eff0(p, c) ==
     LET L == loc[p]
         S == sh
-        R(s, l) == [s |-> s, l |-> l] IN
-    CASE L.pc = "mkdtemp" ->           \* tempfile.mkdtemp(dir='/run/lock')
-           R([S EXCEPT !.tmp[p] = 1], [L EXCEPT !.pc = "t_xopen", !.ph = "starting"])
+        R(s, l) == [s |-> s, l |-> l]
+        Held == Mutex /\ ~Bare
+        \* an exception leaves run(): inside interface_lock() the descriptor is closed first
+        Fail(l) == IF Held /\ S.mutex = p THEN [l EXCEPT !.pc = "mx_fail", !.inst = FALSE] ELSE Failed(l)
+        \* the start sequence is over / the stop sequence is over
+        Started(l) == IF Held THEN [l EXCEPT !.pc = "m_close"] ELSE [l EXCEPT !.pc = "running", !.ph = "running"]
+        Stopped(l) == IF Held THEN [l EXCEPT !.pc = "s_mclose"] ELSE [l EXCEPT !.pc = "done", !.ph = "done"]
+        RmOwn == IF S.lockdir.ex /\ L.own \in S.lockdir.m     \* os.remove(own ethertype file)
+                 THEN R([S EXCEPT !.lockdir.m = @ \ {L.own}], [L EXCEPT !.pc = "rmdir", !.ph = "stopping"])
+                 ELSE R(S, Fail([L EXCEPT !.ph = "stopping"]))
+        FrLock == R([S EXCEPT !.holder = p], [L EXCEPT !.pc = "fr_read", !.ph = "stopping"]) IN
+    CASE L.pc = "m_open" -> R(S, [L EXCEPT !.pc = "m_lock"])       \* os.open(<if>.mutex, O_CREAT)
+      [] L.pc = "m_lock" -> R([S EXCEPT !.mutex = p], [L EXCEPT !.pc = "mkdtemp"])      \* flock(LOCK_EX)
+      [] L.pc = "m_close" ->           \* the start block is left: os.close releases the mutex
+           R([S EXCEPT !.mutex = None], [L EXCEPT !.pc = "running", !.ph = "running"])
+      [] L.pc = "s_mlock" -> R([S EXCEPT !.mutex = p], [L EXCEPT !.pc = "s_rmown"])
+      [] L.pc = "s_rmown" -> RmOwn
+      [] L.pc = "s_mclose" -> R([S EXCEPT !.mutex = None], [L EXCEPT !.pc = "done", !.ph = "done"])
+      [] L.pc = "mx_fail" -> R([S EXCEPT !.mutex = None], Failed(L))
+      [] L.pc = "mkdtemp" ->           \* tempfile.mkdtemp(dir='/run/lock')
+           R([S EXCEPT !.tmp[p] = 1], [L EXCEPT !.pc = "t_xopen"])
       [] L.pc = "t_xopen" ->           \* open(tmpdir/<eth>.lock, 'x'): the directory is private
            R([S EXCEPT !.tmp[p] = 2], [L EXCEPT !.pc = "rename", !.own = L.eth])
       [] L.pc = "rename" ->            \* os.rename(tmpdir, lockdir): target absent or empty
@@ -130,10 +165,10 @@ Eff(p, c) ==
            IF S.mbx THEN R(S, [L EXCEPT !.pc = "fm_openx"]) ELSE R(S, Fail(L))
       [] L.pc = "fm_openx" ->
            IF S.fm.ex THEN R(S, [L EXCEPT !.pc = "fm_open"])
-           ELSE R([S EXCEPT !.fm = [ex |-> TRUE, len |-> 0, bits |-> {}]], [L EXCEPT !.pc = "fm_init"])
+           ELSE R([S EXCEPT !.fm = [ex |-> TRUE, len |-> 0, bits |-> {}]],
+                  [L EXCEPT !.pc = IF LockedInit THEN "fm_lock" ELSE "fm_init"])
       [] L.pc = "fm_init" ->           \* creator: os.write(fd, b'\2' + 63 zero bytes), no lock
-           R([S EXCEPT !.fm.len = Max2(@, 64), !.fm.bits = {1}],
-             [L EXCEPT !.pc = "running", !.ph = "running", !.win = 1])
+           R([S EXCEPT !.fm.len = Max2(@, 64), !.fm.bits = {1}], Started([L EXCEPT !.win = 1]))
       [] L.pc = "fm_open" -> R(S, [L EXCEPT !.pc = "fm_lock"])
       [] L.pc = "fm_lock" -> R([S EXCEPT !.holder = p], [L EXCEPT !.pc = "fm_read"])
       [] L.pc = "fm_read" ->           \* pread(fd, 64, 0); a short file is "wrong" and ignored
@@ -149,23 +184,23 @@ Eff(p, c) ==
                        !.fm.bits = (@ \ ByteBits(k)) \cup (L.amap \cap ByteBits(k)) \cup {L.addr}],
              [L EXCEPT !.pc = "fm_unlock"])
       [] L.pc = "fm_unlock" ->
-           R([S EXCEPT !.holder = None], [L EXCEPT !.pc = "running", !.ph = "running", !.win = L.addr])
+           R([S EXCEPT !.holder = None], Started([L EXCEPT !.win = L.addr]))
       \* ---- stop sequence
-      [] L.pc = "running" ->           \* os.remove(own ethertype file)
-           IF S.lockdir.ex /\ L.own \in S.lockdir.m
-           THEN R([S EXCEPT !.lockdir.m = @ \ {L.own}], [L EXCEPT !.pc = "rmdir", !.ph = "stopping"])
-           ELSE R(S, Fail(L))
+      [] L.pc = "running" ->           \* the first call of the stop sequence
+           IF Bare THEN FrLock
+           ELSE IF Mutex THEN R(S, [L EXCEPT !.pc = "s_mlock", !.ph = "stopping"])
+           ELSE RmOwn
       [] L.pc = "rmdir" ->             \* os.rmdir(lockdir): OSError -> stay installed
            IF S.lockdir.ex /\ S.lockdir.m = {}
            THEN R([S EXCEPT !.lockdir = NoDir], [L EXCEPT !.pc = "detach"])
-           ELSE R(S, [L EXCEPT !.pc = "done", !.ph = "done"])
+           ELSE R(S, Stopped(L))
       [] L.pc = "detach" ->            \* detaches whatever is attached
            R([S EXCEPT !.att = NoAtt], [L EXCEPT !.pc = "s_rmpin"])
       [] L.pc = "s_rmpin" ->           \* os.remove(programs)
            IF S.pin # None THEN R([S EXCEPT !.pin = None], [L EXCEPT !.pc = "mbx_rm"]) ELSE R(S, Fail(L))
       [] L.pc = "mbx_rm" ->            \* mbx_lock_file.remove()
            IF S.mbx THEN R([S EXCEPT !.mbx = FALSE], [L EXCEPT !.pc = "fr_lock"]) ELSE R(S, Fail(L))
-      [] L.pc = "fr_lock" -> R([S EXCEPT !.holder = p], [L EXCEPT !.pc = "fr_read"])
+      [] L.pc = "fr_lock" -> FrLock
       [] L.pc = "fr_read" ->           \* pread(fd, 1, addr // 8)
            LET k == L.win \div 8 IN
            IF S.fm.len > k THEN R(S, [L EXCEPT !.pc = "fr_clear", !.amap = S.fm.bits \cap ByteBits(k)])
@@ -173,15 +208,20 @@ Eff(p, c) ==
       [] L.pc = "fr_clear" ->
            LET k == L.win \div 8 IN
            R([S EXCEPT !.fm.bits = (@ \ ByteBits(k)) \cup (L.amap \ {L.win})], [L EXCEPT !.pc = "fr_unlock"])
-      [] L.pc = "fr_unlock" -> R([S EXCEPT !.holder = None], [L EXCEPT !.pc = "done", !.ph = "done"])
+      [] L.pc = "fr_unlock" -> R([S EXCEPT !.holder = None], Stopped(L))
       [] L.pc = "fr_unlockx" -> R([S EXCEPT !.holder = None], Fail(L))
 
-CrashEff(p) == [s |-> [sh EXCEPT !.holder = IF @ = p THEN None ELSE @],
+(* a participant that has made its first call has started *)
+Eff(p, c) == LET r == Eff0(p, c) IN
+             [s |-> r.s, l |-> IF r.l.ph = "idle" THEN [r.l EXCEPT !.ph = "starting"] ELSE r.l]
+
+CrashEff(p) == [s |-> [sh EXCEPT !.holder = IF @ = p THEN None ELSE @, !.mutex = IF @ = p THEN None ELSE @],
                 l |-> [loc[p] EXCEPT !.pc = "crashed", !.ph = "crashed", !.inst = FALSE]]
 
-(* p can take a step: it is not finished and not blocked in lockf *)
+(* p can take a step: it is not finished and not blocked in lockf / flock *)
 CanStep(p) == /\ loc[p].pc \notin Final
-              /\ (GateOf[loc[p].pc] = "lock:fmmu" => sh.holder = None)
+              /\ (Gate(loc[p].pc) = "lock:fmmu" => sh.holder = None)
+              /\ (Gate(loc[p].pc) = "lock:mutex" => sh.mutex = None)
 (* switching away from q costs no preemption: q is finished, blocked, or inside its context *)
 Free(q) == q = None \/ ~CanStep(q) \/ loc[q].pc = "running"
 Pre(p) == IF MaxPre < 0 THEN 0 ELSE IF last.p # p /\ ~Free(last.p) THEN pre + 1 ELSE pre
@@ -191,10 +231,10 @@ PInit == /\ sh = Sh0 /\ loc = [p \in Procs |-> Loc0]
 
 PStep(p, c) == /\ CanStep(p) /\ c \in ChoiceSet(p)
                /\ LET r == Eff(p, c) IN sh' = r.s /\ loc' = [loc EXCEPT ![p] = r.l]
-               /\ last' = [p |-> p, a |-> GateOf[loc[p].pc], c |-> c]
+               /\ last' = [p |-> p, a |-> Gate(loc[p].pc), c |-> c]
                /\ pre' = Pre(p) /\ (MaxPre >= 0 => pre' <= MaxPre)
                /\ UNCHANGED crashes
-PCrash(p) == /\ crashes < MaxCrash /\ loc[p].pc \notin Final /\ loc[p].pc # "mkdtemp"
+PCrash(p) == /\ crashes < MaxCrash /\ loc[p].pc \notin Final /\ loc[p].ph # "idle"
              /\ LET r == CrashEff(p) IN sh' = r.s /\ loc' = [loc EXCEPT ![p] = r.l]
              /\ last' = [p |-> p, a |-> "crash", c |-> 0]
              /\ pre' = Pre(p) /\ (MaxPre >= 0 => pre' <= MaxPre)
@@ -216,17 +256,20 @@ EthDistinct == \A p, q \in Procs : (p # q /\ Running(p) /\ Running(q)) => loc[p]
 (* the logical address windows given to different processes never overlap *)
 WindowsDistinct == \A p, q \in Procs : (p # q /\ Running(p) /\ Running(q)) => loc[p].win # loc[q].win
 
-Violated == (IF OneInstaller THEN {} ELSE {"OneInstaller"})
-       \cup (IF DispatcherUp THEN {} ELSE {"DispatcherUp"})
-       \cup (IF EthDistinct THEN {} ELSE {"EthDistinct"})
-       \cup (IF WindowsDistinct THEN {} ELSE {"WindowsDistinct"})
+Violated == IF Bare THEN (IF WindowsDistinct THEN {} ELSE {"WindowsDistinct"})
+            ELSE (IF OneInstaller THEN {} ELSE {"OneInstaller"})
+            \cup (IF DispatcherUp THEN {} ELSE {"DispatcherUp"})
+            \cup (IF EthDistinct THEN {} ELSE {"EthDistinct"})
+            \cup (IF WindowsDistinct THEN {} ELSE {"WindowsDistinct"})
+(* the property as one invariant of the design (for Bare: only the windows) *)
+Property == Violated = {}
 
 (* not one of the four: every running participant's own handle is the attached dispatcher's
    table ("reachable" read per participant); evaluated and reported separately *)
-HandleCurrent == \A p \in Procs : Running(p) => loc[p].tab = sh.att.t
+HandleCurrent == Bare \/ \A p \in Procs : Running(p) => loc[p].tab = sh.att.t
 
 TypeOK == /\ sh.pin \in Procs \cup {None}
-          /\ sh.holder \in Procs \cup {None}
+          /\ sh.holder \in Procs \cup {None} /\ sh.mutex \in Procs \cup {None}
           /\ \A p \in Procs : /\ loc[p].pc \in DOMAIN GateOf
                               /\ loc[p].eth \in {Eth0} \cup REth
                               /\ loc[p].win \in {0} \cup Addrs
@@ -234,4 +277,7 @@ TypeOK == /\ sh.pin \in Procs \cup {None}
 LockSound == \A p \in Procs : (sh.holder = p) <=>
                  loc[p].pc \in {"fm_read", "fm_zero", "fm_trunc", "fm_set", "fm_unlock",
                                 "fr_read", "fr_clear", "fr_unlock", "fr_unlockx"}
+(* the mutex is held exactly inside the start block and inside the stop block *)
+MutexSound == \A p \in Procs : (sh.mutex = p) <=>
+                 (Mutex /\ ~Bare /\ loc[p].pc \notin {"m_open", "m_lock", "running", "s_mlock"} \cup Final)
 =============================================================================
